@@ -90,7 +90,7 @@ fn inputs(repos: &[Repo]) -> Vec<Input> {
 }
 
 /// indices (in the order the recorder creates them) of the repositories that are clean and exactly at their tag
-const CLEAN_AT_TAG: &[usize] = &[2, 3, 5];
+const CLEAN_AT_TAG: &[usize] = &[2, 3, 6];
 const TZS: &[&str] = &["UTC", "Pacific/Kiritimati", "Pacific/Pago_Pago", "Asia/Kolkata"];
 const LOCALES: &[&str] = &["C", "C.UTF-8", "de_DE.UTF-8", "tr_TR.UTF-8"];
 
@@ -126,6 +126,12 @@ pub fn record(args: &[String]) {
     }
     e.apply("commit", &json!([])).unwrap();
     repos.push(e);
+    // a detached HEAD ahead of the tag (what CI runners check out)
+    let mut g = Repo::new(0);
+    g.apply("tag", &to_cps("v1.0.0")).unwrap();
+    g.apply("commit", &json!([])).unwrap();
+    g.apply("detach", &json!(2)).unwrap();
+    repos.push(g);
     // a clean checkout at a tag whose commit was made at the Unix epoch itself (time 0)
     let mut f = Repo::new(3);
     f.apply("tag", &to_cps("v0.3.0")).unwrap();
@@ -144,8 +150,13 @@ pub fn record(args: &[String]) {
             for (k, val) in [("RUST_BACKTRACE", "1"), ("NO_COLOR", "1"), ("HOME", "/nonexistent"), ("PAGER", "cat"), ("COLUMNS", "20"), ("ZERV_SOMETHING", "x"), ("SOURCE_DATE_EPOCH", "1"),
                            // logging goes to stderr: turning it up, down or off must not change stdout
                            ("RUST_LOG", ["trace", "zerv=debug", "off", "garbage=,,"][rng.gen_range(0..4)]), ("ZERV_FORCE_RUST_LOG_OFF", "1"),
-                           ("ZERV_TEST_NATIVE_GIT", "1"), ("ZERV_TEST_DOCKER", "0"), ("GIT_PAGER", "cat"), ("LESS", "-R"), ("TERM", "dumb"), ("CLICOLOR_FORCE", "1")] {
-                if rng.gen_bool(0.4) {
+                           ("ZERV_TEST_NATIVE_GIT", "1"), ("ZERV_TEST_DOCKER", "0"), ("GIT_PAGER", "cat"), ("LESS", "-R"), ("TERM", "dumb"), ("CLICOLOR_FORCE", "1"),
+                           // what CI runners export: none of it is an input of zerv
+                           ("CI", "true"), ("GITHUB_ACTIONS", "true"), ("GITHUB_REF_NAME", "develop"), ("GITHUB_REF", "refs/heads/release/3"), ("GITHUB_HEAD_REF", "feature/x"),
+                           ("GITHUB_SHA", "0123456789abcdef0123456789abcdef01234567"), ("CI_COMMIT_REF_NAME", "release/3"), ("CI_COMMIT_TAG", "v9.9.9"), ("CI_COMMIT_SHA", "deadbeef"),
+                           ("GIT_BRANCH", "origin/feature/login"), ("GIT_COMMIT", "deadbeef"), ("BRANCH_NAME", "main"), ("BUILD_NUMBER", "77"), ("TRAVIS_BRANCH", "develop"), ("TRAVIS_TAG", "v8.0.0"),
+                           ("BITBUCKET_BRANCH", "hotfix/1"), ("VERSION", "7.7.7"), ("ZERV_VERSION", "7.7.7"), ("USER", "somebody"), ("HOSTNAME", "builder-17"), ("PWD", "/nonexistent")] {
+                if rng.gen_bool(0.3) {
                     env.push((k.into(), val.into()));
                 }
             }
